@@ -8,6 +8,14 @@ def hx(b):
     return binascii.hexlify(b).decode() if b else "-"
 
 
+# "alias" injection: while ALIAS = [index, add] is set, the index-th Exp-Golomb element written (across all writers) gets
+# `add` (a multiple of 256) added to its code number - a value that a narrowing cast (`as u8`, `as u16`) would map back
+# onto the original one.  See aliased() below.
+ALIAS = None
+UE_SEEN = 0
+UE_LIMIT = (1 << 32) - 2
+
+
 class BitWriter:
     def __init__(self):
         self.bits = []
@@ -22,6 +30,10 @@ class BitWriter:
         return self
 
     def ue(self, v):
+        global UE_SEEN
+        if ALIAS is not None and UE_SEEN == ALIAS[0] and 0 <= v and v + ALIAS[1] <= UE_LIMIT:
+            v += ALIAS[1]
+        UE_SEEN += 1
         v1 = v + 1
         m = v1.bit_length() - 1
         self.bits += [0] * m + [1]
@@ -137,3 +149,26 @@ def all_partitions(data):
                 start = i + 1
         parts.append(data[start:])
         yield parts
+
+
+def aliased(rng, enc):
+    """enc() encodes something using rng; returns enc()'s result with one randomly chosen Exp-Golomb element displaced by a
+    multiple of 256 (2^8, 2^9, 2^16, 2^17, 2^24, 2^25: the value and, for se(v), v itself wrap onto the original under a
+    cast to 8 / 16 / 24 bits).  The random choices inside enc are replayed identically."""
+    global ALIAS, UE_SEEN
+    st = rng.getstate()
+    ALIAS, UE_SEEN = None, 0
+    enc()
+    n = UE_SEEN
+    st2 = rng.getstate()
+    j = rng.randrange(max(1, n))
+    add = rng.choice([1 << 8, 1 << 9, 1 << 8, 1 << 9, 1 << 16, 1 << 17, 1 << 24, 1 << 25])
+    rng.setstate(st)
+    ALIAS, UE_SEEN = [j, add], 0
+    try:
+        out = enc()
+    finally:
+        ALIAS = None
+    rng.setstate(st2)
+    rng.random()
+    return out
